@@ -9,6 +9,7 @@ import GocoinV.Proofs.C06Climb
 import GocoinV.Proofs.C06Farthest
 import GocoinV.Proofs.C06MorePow
 import GocoinV.Proofs.C06Delete
+import GocoinV.Proofs.C06Ext
 namespace GocoinV.ChainTree
 open GocoinV.UtxoOps
 
@@ -88,25 +89,26 @@ theorem afterFail_eq (f : Nat) (c : Chain) (r : Node) (hr : getNode c c.root = s
     no panic; invariants kept; ends on `e` with the tree untouched, or — after a failure — on a maximum-work node -/
 def PSpec (U : List Block) (f : Nat) : Prop :=
   ∀ (c : Chain) (e : Nat) (en : Node) (path : List PE),
-    TreeWF U c → PathOKH c 0 path → BlockTree c.root U → getNode c e = some en → Desc c c.tip e →
+    TreeWF U c → PathOKH c 0 path → Ext c path → BlockTree c.root U → getNode c e = some en → Desc c c.tip e →
     f ≥ (en.height - path.length) + 1 + c.nodes.length * (c.nodes.length + 4) →
     ∃ c' path', parseTill f c e = .ok c' ∧ TreeWF U c' ∧ PathOKH c' 0 path' ∧ c'.root = c.root ∧
-      ((c'.tip = e ∧ c'.nodes = c.nodes) ∨ MaxW c')
+      ((c'.tip = e ∧ c'.nodes = c.nodes) ∨ MaxW c') ∧ Ext c' path' ∧ Lost U c.root c c'
 
 /-- the fall-back after a failure (FindFarthestNode from the root + MoveToBlock) -/
 def ASpec (U : List Block) (f : Nat) : Prop :=
   ∀ (c : Chain) (path : List PE),
-    TreeWF U c → PathOKH c 0 path → BlockTree c.root U →
+    TreeWF U c → PathOKH c 0 path → Ext c path → BlockTree c.root U →
     f ≥ c.nodes.length * (c.nodes.length + 4) + c.nodes.length + 2 →
-    ∃ c' path', afterFail f c = .ok c' ∧ TreeWF U c' ∧ PathOKH c' 0 path' ∧ c'.root = c.root ∧ MaxW c'
+    ∃ c' path', afterFail f c = .ok c' ∧ TreeWF U c' ∧ PathOKH c' 0 path' ∧ c'.root = c.root ∧ MaxW c' ∧
+      Ext c' path' ∧ Lost U c.root c c'
 
 /-- MoveToBlock(dst) for any node `dst` of the tree -/
 def MSpec (U : List Block) (f : Nat) : Prop :=
   ∀ (c : Chain) (dst : Nat) (d : Node) (path : List PE),
-    TreeWF U c → PathOKH c 0 path → BlockTree c.root U → getNode c dst = some d →
+    TreeWF U c → PathOKH c 0 path → Ext c path → BlockTree c.root U → getNode c dst = some d →
     f ≥ c.nodes.length * (c.nodes.length + 4) + c.nodes.length + 1 →
     ∃ c' path', moveTo f c dst = .ok c' ∧ TreeWF U c' ∧ PathOKH c' 0 path' ∧ c'.root = c.root ∧
-      ((c'.tip = dst ∧ c'.nodes = c.nodes) ∨ MaxW c')
+      ((c'.tip = dst ∧ c'.nodes = c.nodes) ∨ MaxW c') ∧ Ext c' path' ∧ Lost U c.root c c'
 
 theorem fuel_ineq (a b : Nat) (h : a < b) : a * (a + 4) + a + 2 ≤ b * (b + 4) := by
   have h1 : (a + 1) * (a + 5) ≤ b * (b + 4) := Nat.mul_le_mul h (by omega)
@@ -125,9 +127,9 @@ theorem parseStep_facts (c : Chain) (nx : Nat) (nxt : Node) (blk : Stored) (ch :
     rfl⟩
 
 theorem PSpec_step {U : List Block} (f : Nat) (ihP : PSpec U f) (ihA : ASpec U f) : PSpec U (f + 1) := by
-  intro c e en path w hp hU he hd hf
+  intro c e en path w hp hx hU he hd hf
   by_cases htip : c.tip = e
-  · exact ⟨c, path, parseTill_done f c e htip, w, hp, rfl, Or.inl ⟨htip, rfl⟩⟩
+  · exact ⟨c, path, parseTill_done f c e htip, w, hp, rfl, Or.inl ⟨htip, rfl⟩, hx, Lost.of_getNode (fun _ => rfl)⟩
   obtain ⟨hpo, t, ht, hth⟩ := hp
   obtain ⟨nx, nxt, hfp, hnxt, hpar, hnxr, hdx⟩ := findPathTo_spec w ht he hd htip
   obtain ⟨b, hbU, _, _, _, htc, s, hs, hst⟩ := w.blk nx nxt hnxt hnxr
@@ -166,10 +168,12 @@ theorem PSpec_step {U : List Block} (f : Nat) (ihP : PSpec U f) (ihA : ASpec U f
       · simp [hk]
     have hp2 : PathOKH (parseStep c nx nxt s ch true) 0 (⟨nx, s.txs⟩ :: path) :=
       ⟨hpath2, nxt, by rw [ht2, hg2]; exact hnxt, by simp only [List.length_cons]; exact hh⟩
-    obtain ⟨c', path', h1, h2, h3, h4, h5⟩ := ihP (parseStep c nx nxt s ch true) e en _ w2 hp2 (by rw [hr2]; exact hU)
+    have hx2 : Ext (parseStep c nx nxt s ch true) (⟨nx, s.txs⟩ :: path) := hx.connect nx s _ _ ch hs hct hst2
+    obtain ⟨c', path', h1, h2, h3, h4, h5, h6, h7⟩ := ihP (parseStep c nx nxt s ch true) e en _ w2 hp2 hx2 (by rw [hr2]; exact hU)
       (by rw [hg2]; exact he) (by rw [ht2]; exact Desc_same hr2 hg2 hdx)
       (by rw [hn2]; simp only [List.length_cons]; omega)
-    refine ⟨c', path', by rw [hstep]; exact h1, h2, h3, h4.trans hr2, ?_⟩
+    refine ⟨c', path', by rw [hstep]; exact h1, h2, h3, h4.trans hr2, ?_, h6,
+      (Lost.of_getNode hg2).trans (by rw [hr2] at h7; exact h7)⟩
     rcases h5 with ⟨a, b⟩ | h5
     · exact Or.inl ⟨a, b.trans hn2⟩
     · exact Or.inr h5
@@ -195,16 +199,22 @@ theorem PSpec_step {U : List Block} (f : Nat) (ihP : PSpec U f) (ihA : ASpec U f
       obtain ⟨n', g1, _, g3, _⟩ := keep c.tip t ht (alive _ _ ht (by omega))
       exact ⟨n', by rw [hf2.2.2.1]; exact g1, by omega⟩
     have hfu := fuel_ineq _ _ hlen
-    obtain ⟨c', path', h1, h2, h3, h4, h5⟩ := ihA (deleteBranch c nx) path w2 ⟨hpo2, htip2⟩
+    have hx2 : Ext (deleteBranch c nx) path := hx.deleteBranch w hnxt (fun e he => by
+      obtain ⟨m, hm, hmh⟩ := Linked_mem_height w hpo.linked e he
+      exact alive _ _ hm hmh)
+    have hlost : Lost U c.root c (deleteBranch c nx) :=
+      Lost.deleteBranch w hpo hnxt hnxr hpar s hs err (by rw [← hh]; exact hct)
+    obtain ⟨c', path', h1, h2, h3, h4, h5, h6, h7⟩ := ihA (deleteBranch c nx) path w2 ⟨hpo2, htip2⟩ hx2
       (by rw [hf2.2.2.2.2]; exact hU) (by omega)
-    exact ⟨c', path', by rw [hfail]; exact h1, h2, h3, h4.trans hf2.2.2.2.2, Or.inr h5⟩
+    exact ⟨c', path', by rw [hfail]; exact h1, h2, h3, h4.trans hf2.2.2.2.2, Or.inr h5, h6,
+      hlost.trans (by rw [hf2.2.2.2.2] at h7; exact h7)⟩
 
 theorem ASpec_step {U : List Block} (f : Nat) (ihM : MSpec U f) : ASpec U (f + 1) := by
-  intro c path w hp hU hf
+  intro c path w hp hx hU hf
   obtain ⟨r, hr, _, hrb⟩ := w.root
   obtain ⟨nL, hL, hmax⟩ := farthest_spec w hU hr hrb
-  obtain ⟨c', path', h1, h2, h3, h4, h5⟩ := ihM c _ nL path w hp hU hL (by omega)
-  refine ⟨c', path', by rw [afterFail_eq f c r hr]; exact h1, h2, h3, h4, ?_⟩
+  obtain ⟨c', path', h1, h2, h3, h4, h5, h6, h7⟩ := ihM c _ nL path w hp hx hU hL (by omega)
+  refine ⟨c', path', by rw [afterFail_eq f c r hr]; exact h1, h2, h3, h4, ?_, h6, h7⟩
   rcases h5 with ⟨a, b⟩ | h5
   · have hg : ∀ x, getNode c' x = getNode c x := fun x => getNode_nodes b x
     refine ⟨nL, by rw [a, hg]; exact hL, fun x n hn => ?_⟩
@@ -213,7 +223,7 @@ theorem ASpec_step {U : List Block} (f : Nat) (ihM : MSpec U f) : ASpec U (f + 1
   · exact h5
 
 theorem MSpec_step {U : List Block} (f : Nat) (ihP : PSpec U f) : MSpec U (f + 1) := by
-  intro c dst d path w hp hU hd hf
+  intro c dst d path w hp hx hU hd hf
   obtain ⟨hpo, lb, hlb, hlbh⟩ := hp
   obtain ⟨cur, h1, hcur, hdcur, hcurh⟩ := climbChecked_spec w hU lb.height (d.height + 1) dst d hd (by omega)
   obtain ⟨lb2, h2, hlb2, hdlb2, hlb2h⟩ := climbChecked_spec w hU cur.height (lb.height + 1) c.tip lb hlb (by omega)
@@ -230,9 +240,11 @@ theorem MSpec_step {U : List Block} (f : Nat) (ihP : PSpec U f) : MSpec U (f + 1
   obtain ⟨t1, ht1, ht1h⟩ := Linked_head_height w1 hp1.linked
   have hp1' : PathOKH c1 0 post := ⟨hp1, t1, by rw [hp1.tip]; exact ht1, ht1h⟩
   have hdh := height_lt_length w hd
-  obtain ⟨c', path', g1, g2, g3, g4, g5⟩ := ihP c1 dst d post w1 hp1' (by rw [hr1]; exact hU) (by rw [hg1]; exact hd)
+  have hx1 : Ext c1 post := (hx.of_store_eq hs1).suffix
+  obtain ⟨c', path', g1, g2, g3, g4, g5, g6, g7⟩ := ihP c1 dst d post w1 hp1' hx1 (by rw [hr1]; exact hU) (by rw [hg1]; exact hd)
     (by rw [hp1.tip, headId_congr hr1, hhead]; exact Desc_same hr1 hg1 hdd) (by rw [hn1]; omega)
-  refine ⟨c', path', by rw [hmv]; exact g1, g2, g3, g4.trans hr1, ?_⟩
+  refine ⟨c', path', by rw [hmv]; exact g1, g2, g3, g4.trans hr1, ?_, g6,
+    (Lost.of_getNode hg1).trans (by rw [hr1] at g7; exact g7)⟩
   rcases g5 with ⟨a, b⟩ | g5
   · exact Or.inl ⟨a, b.trans hn1⟩
   · exact Or.inr g5
@@ -243,9 +255,9 @@ theorem reorg_specs (U : List Block) : ∀ f, PSpec U f ∧ ASpec U f ∧ MSpec 
   induction f with
   | zero =>
     refine ⟨?_, ?_, ?_⟩
-    · intro c e en path _ _ _ _ _ hf; omega
-    · intro c path _ _ _ hf; omega
-    · intro c dst d path _ _ _ _ hf; omega
+    · intro c e en path _ _ _ _ _ _ hf; omega
+    · intro c path _ _ _ _ hf; omega
+    · intro c dst d path _ _ _ _ _ hf; omega
   | succ f ih =>
     exact ⟨PSpec_step f ih.1 ih.2.1, ASpec_step f ih.2.2, MSpec_step f ih.1⟩
 
